@@ -133,6 +133,9 @@ pub(crate) fn add_str_get<W, R, T>(
             let s = to_primitive!(a0, String);
             let i = to_primitive!(a1, Int);
             let Some(i) = if i.is_negative() { Cow::Owned(i + s.len()) } else { Cow::Borrowed(i) }.to_usize() else { xraise!(Err(ManagedXError::new("index too large",rt)?)) };
+            if i >= s.len() {
+                return xerr(ManagedXError::new("index out of bounds", rt)?);
+            }
             Ok(ManagedXValue::new(XValue::String(Box::new(s.substring(i, Some(i + 1)))), rt)?.into())
         }),
     )
@@ -164,6 +167,9 @@ pub(crate) fn add_str_find<W, R, T>(
                     Some(i) => i,
                 },
             };
+            if start_ind > string.len() {
+                return xerr(ManagedXError::new("index out of bounds", rt)?);
+            }
             let haystack = string.substr(start_ind, None);
             let found_idx = haystack
                 .find(needle.as_str())
@@ -225,7 +231,7 @@ pub(crate) fn add_str_substring<W, R, T>(
             let raw_end = to_primitive!(a2, Int);
             let raw_end = if raw_end.is_negative() { Cow::Owned(raw_end + string.len()) } else { Cow::Borrowed(raw_end) };
             let Some(end) = raw_end.to_usize() else { return xerr(ManagedXError::new("index out of bounds", rt)?); };
-            if end < start { return xerr(ManagedXError::new("index out of bounds", rt)?); }
+            if end < start || start > string.len() { return xerr(ManagedXError::new("index out of bounds", rt)?); }
             if start == 0 && end == string.len(){
                 return Ok(a0.into());
             }
